@@ -2,7 +2,11 @@
    fixed = flag fix (fx), stalefix = one-shot stop only after the callback (fs),
    restartfix = ... and only if the handle still watches the message's signal (fr)
    case:  <cap> ; op op ... ; beh0 | beh1 | ...
-   ops:   I<l>  S<h>,<sig>  O<h>,<sig>  T<h>  C<h>  K<sig>  R<l>            *)
+   ops:   I<l>  S<h>,<sig>  O<h>,<sig>  T<h>  C<h>  K<sig>  R<l>  U<l> (uv_stop)  J<h> (re-init a closed slot)
+   fork family:  fork <cap> ; prefix ops ; p:op c:op ... ; beh0 | ...
+     the process forks after the prefix, the child calls uv_loop_fork(loop 0); p:/c: ops belong to
+     the parent / the child.  Result: parent trace "||" child trace (from the fork on): the model
+     runs the two processes as two independent runs. *)
 let nat_ s = nat_of_int (int_of_string s)
 
 let parse_op (tok : string) : op =
@@ -15,6 +19,9 @@ let parse_op (tok : string) : op =
   | 'C', [h] -> OClose (nat_ h)
   | 'K', s :: _ -> ORaise (nat_ s)      (* K<sig>[,<thread>[,<mode>]]: the thread does not matter to the model *)
   | 'R', [l] -> ORun (nat_ l)
+  | 'U', [l] -> OUvStop (nat_ l)
+  | 'J', [h] -> OReinit (nat_ h)
+  | 'F', [l] -> OFork (nat_ l)
   | _ -> failwith ("bad op " ^ tok)
 
 let disp_char = function Default -> 'D' | Handler false -> 'H' | Handler true -> 'R'
@@ -33,6 +40,8 @@ let print_event buf e =
    | ECloseCb h -> add (Printf.sprintf "z%d" (int_of_nat h))
    | ERunBegin l -> add (Printf.sprintf "(%d" (int_of_nat l))
    | ERunEnd l -> add (Printf.sprintf ")%d" (int_of_nat l))
+   | EFork (_, _) -> add "f0"
+   | EDrop (_, _) -> ()
    | ESnap (d, a) ->
        add "[";
        List.iter (fun x -> Buffer.add_char buf (disp_char x)) d;
@@ -41,17 +50,44 @@ let print_event buf e =
        add "]");
   Buffer.add_char buf ' '
 
+let render evs =
+  let buf = Buffer.create 1024 in
+  List.iter (print_event buf) evs;
+  Buffer.contents buf
+
+let parse_behs behs =
+  let beha = Array.of_list (List.map (fun b -> List.map parse_op (split_on ' ' b))
+                              (String.split_on_char '|' behs)) in
+  fun k -> let k = int_of_nat k in if k < Array.length beha then beha.(k) else []
+
+let rec drop n l = if n <= 0 then l else match l with [] -> [] | _ :: t -> drop (n - 1) t
+
+let fork_case fx fs fr (line : string) : string =
+  match String.split_on_char ';' line with
+  | [cap; prefix; tagged; behs] ->
+      let prefix = List.map parse_op (split_on ' ' prefix) in
+      let tagged = split_on ' ' tagged in
+      let mine c = List.filter_map (fun t ->
+          if String.length t > 2 && t.[0] = c && t.[1] = ':'
+          then Some (parse_op (String.sub t 2 (String.length t - 2))) else None) tagged in
+      let beh = parse_behs behs in
+      let go ops = trace_of (run fx fs fr beh (nat_of_int 100000) (init (nat_ (String.trim cap))) ops) in
+      let tp = go prefix in
+      let n = List.length tp in
+      let parent = go (prefix @ mine 'p') and child = go (prefix @ [OFork O] @ mine 'c') in
+      render tp ^ "fp " ^ render (drop n parent) ^ "|| " ^ render (drop n child)
+  | _ -> "badcase"
+
 let case (fx : bool) (fs : bool) (fr : bool) (line : string) : string =
+  if String.length line > 5 && String.sub line 0 5 = "fork " then
+    fork_case fx fs fr (String.sub line 5 (String.length line - 5))
+  else
   match String.split_on_char ';' line with
   | [cap; ops; behs] ->
       let ops = List.map parse_op (split_on ' ' ops) in
-      let beha = Array.of_list (List.map (fun b -> List.map parse_op (split_on ' ' b))
-                                  (String.split_on_char '|' behs)) in
-      let beh k = let k = int_of_nat k in if k < Array.length beha then beha.(k) else [] in
+      let beh = parse_behs behs in
       let s = run fx fs fr beh (nat_of_int 100000) (init (nat_ (String.trim cap))) ops in
-      let buf = Buffer.create 1024 in
-      List.iter (print_event buf) (trace_of s);
-      Buffer.contents buf
+      render (trace_of s)
   | _ -> "badcase"
 
 let () =
